@@ -295,6 +295,14 @@ func (w *World) Tick(sid int) {
 	if s, ok := w.store.GetByGlobalID(w.store.GlobalSessionID(uint32(sid))); ok {
 		s.VerifTick()
 	}
+	// the session only signals the frame; every connection's own frame goroutine hands its updates over
+	ids := append([]int(nil), w.order...)
+	sort.Ints(ids)
+	for _, c := range ids {
+		if cs := w.conns[c]; cs != nil {
+			cs.v.PumpFrame()
+		}
+	}
 	w.finishEvent("ok")
 }
 
